@@ -45,7 +45,7 @@ def demo_run():
         # build the crate with its portable (8-byte) group scanner: --cfg miri for crate hashbrown only
         pre = "RUSTC_WRAPPER=/verif/engine/rustc-wrap.sh CARGO_TARGET_DIR=/tmp/wt/eval/target-portable "
     rc, out = run(f"{pre}cargo test --offline --features {FEATURES} --test zz_demo 2>&1 | tail -25", cwd=WT, timeout=1800)
-    ok = "test result: ok" in out and "FAILED" not in out and "error" not in out.split("test result")[0][-200:]
+    ok = "test result: ok" in out and "FAILED" not in out and not any(x in out.split("test result")[0][-300:] for x in ("error:", "error["))
     return ok, out
 ok_with, out_with = demo_run()
 run("git checkout -q -- src", cwd=WT)
